@@ -64,15 +64,16 @@ def universe(top):
 # ----------------------------------------------------------------------------- implementation side
 
 def scratch_base():
-    """common.scratch_dir(), on tmpfs when there is one (thousands of tiny files per second)"""
+    """a scratch directory, on tmpfs when there is one (thousands of tiny files per second); auto-removed
+    like common.scratch_dir()"""
+    import atexit
     import tempfile
-    old = tempfile.tempdir
-    try:
-        if os.path.isdir("/dev/shm") and os.access("/dev/shm", os.W_OK):
-            tempfile.tempdir = "/dev/shm"
-        return common.scratch_dir("drfc16-")
-    finally:
-        tempfile.tempdir = old
+    if os.path.isdir("/dev/shm") and os.access("/dev/shm", os.W_OK):
+        d = tempfile.mkdtemp(prefix="drfc16-", dir="/dev/shm")
+        atexit.register(shutil.rmtree, d, True)
+        _SHM.append(d)
+        return d
+    return common.scratch_dir("drfc16-")
 
 
 class Impl:
@@ -316,6 +317,14 @@ def oracle(impl, op, before_disk, after_disk, exc):
         if hd.active_size != truth:
             out.append(("active-size-not-sum-of-records", "active_size differs from the total size of the tracked files",
                         truth, hd.active_size))
+    # bookkeeping = truth: after an event that reports the removal or the rename of a file, a record
+    # for that path may remain only if the file is (again) on disk
+    if op[0] in ("D", "V") and not exc:
+        gone_path = pstr(impl.top, tuple(op[1]))
+        if gone_path in recs and gone_path not in after_disk:
+            out.append(("tracked-file-missing-after-reported-removal",
+                        "a file whose removal / rename was reported and which no longer exists is still tracked",
+                        "not tracked", gone_path))
     # once a newly reported file has been handled every configured limit holds again
     if op[0] in ("C", "V", "A", "AG") and impl.nadd > 0 and not exc:
         for grp, q in hd.queues.items():
@@ -516,6 +525,10 @@ def gen_random_history(rng, groups, sizes, n):
                 ops.append(("D", p))
         elif r < 0.76:
             a, b = rng.choice(paths + junk), rng.choice(paths + junk)
+            if rng.random() < 0.6 and a != b and not (a[0] < 0 and a[1] == 0):   # never the properties file
+                # the file is really renamed (disk: a disappears, b appears), then the event arrives
+                ops.append(("X", a))
+                ops.append(("W", b, rng.choice(sizes)))
             ops.append(("V", a, b))
         elif r < 0.84:
             k = rng.randrange(0, 5)
@@ -540,11 +553,34 @@ def exhaustive_alphabet(groups, nkeys):
     al = []
     for p in paths:
         al += [[("W", p, 100), ("C", p)], [("C", p)], [("W", p, 250), ("M", p)], [("D", p)], [("X", p)]]
+    # a tracked file set aside under a name the ring buffer does not track, reported as a move
+    for g in groups:
+        p = (g, key_of(0), 0)
+        al.append([("X", p), ("W", (-1, 2, g), 100), ("V", p, (-1, 2, g))])
     al += [[("S", "CUR")], [("AG", paths)], [("A", list(reversed(paths)), True)]]
     return al
 
 
+_SHM = []     # scratch directories outside common.scratch_root() (tmpfs); the check body runs in a child that
+              # leaves through os._exit, so they are removed explicitly
+
+
 def run(res):
+    try:
+        _run(res)
+    finally:
+        global _POOL
+        try:
+            if globals().get("_POOL") is not None:
+                _POOL.terminate()
+                _POOL = None
+        except Exception:  # noqa
+            pass
+        for d in _SHM:
+            shutil.rmtree(d, True)
+
+
+def _run(res):
     rng = res.rng
     quick = res.tier == "quick"
     res.rule = ("history = files written/removed behind the handler's back + created/modified/deleted/moved events "
